@@ -1,10 +1,10 @@
 SPECIFICATION Spec
 CONSTANTS
-  NV = 2
-  StabV = {2}
+  NV = 3
+  StabV = {3}
   HasHf = FALSE
-  Absent0 = {}
-  Admin = FALSE
+  Absent0 <- AbsMidStab
+  Admin = TRUE
   Cmds = {}
   Rewrites = FALSE
   NP = 2
@@ -19,7 +19,7 @@ CONSTANTS
   AutoApprove = TRUE
   Opts = {}
   ReportOnce = TRUE
-  MaxLevel = 11
+  MaxLevel = 9
   EmitJson = FALSE
   PruneOnlyOwned = FALSE
   PushOnlyChanged = FALSE
@@ -37,4 +37,5 @@ PROPERTY C08_FF
 PROPERTY C08_Foreign
 PROPERTY C12_Held
 PROPERTY C20_EntryFate
+PROPERTY C20_DestDel
 CHECK_DEADLOCK FALSE
